@@ -4,6 +4,7 @@ import (
 	"bytes"
 	"fmt"
 	"io"
+	"iter"
 	"math"
 	"strings"
 	"sync"
@@ -278,8 +279,17 @@ func (e *tokEnv) randInvocation(iss *principal) (*invocation.Token, string) {
 	}
 	_, im := e.randMetaOpts(false)
 	opts := im
-	opts = append(opts, invocation.WithArguments(e.randArgs(r)))
 	tagx := "plain"
+	ra := e.randArgs(r)
+	if r.Chance(15) {
+		// the documented "first one wins": an argument given by WithArgument, then the same key inside WithArguments
+		for k := range ra.Iter() {
+			opts = append(opts, invocation.WithArgument(k, "first-wins"))
+			tagx = "args-two-options"
+			break
+		}
+	}
+	opts = append(opts, invocation.WithArguments(ra))
 	if r.Chance(40) {
 		opts = append(opts, invocation.WithAudience(e.keys[r.Intn(len(e.keys))].did))
 	}
@@ -297,6 +307,21 @@ func (e *tokEnv) randInvocation(iss *principal) (*invocation.Token, string) {
 		if r.Chance(25) {
 			opts = append(opts, invocation.WithInvokedAt(time.Unix(-9007199254740992, 0)))
 			tagx = "iat-beyond53"
+		}
+	case 5:
+		// Go's zero time (year 1) and the epoch are instants like any other
+		switch r.Intn(4) {
+		case 0:
+			opts = append(opts, invocation.WithExpiration(time.Time{}))
+		case 1:
+			opts = append(opts, invocation.WithInvokedAt(time.Time{}))
+		case 2:
+			opts = append(opts, invocation.WithExpiration(time.Unix(0, 0)), invocation.WithInvokedAt(time.Unix(0, 0)))
+		case 3:
+			opts = append(opts, invocation.WithExpiration(time.Time{}), invocation.WithInvokedAt(time.Time{}))
+		}
+		if tagx == "plain" {
+			tagx = "zero-times"
 		}
 	}
 	if r.Chance(30) {
@@ -646,7 +671,10 @@ func genToken(c *Ctx) {
 			}
 		}
 		// field-level rewrites under the old signature, foreign signatures, header games
-		n, _ := ipld.Decode(sealed, dagcbor.Decode)
+		n, derr := ipld.Decode(sealed, dagcbor.Decode)
+		if derr != nil {
+			continue // what ToSealed wrote is not DAG-CBOR: reported by the round-trip case of this token
+		}
 		sigN, _ := n.LookupByIndex(0)
 		sig, _ := sigN.AsBytes()
 		sp, _ := n.LookupByIndex(1)
@@ -763,18 +791,35 @@ func genToken(c *Ctx) {
 			{"iat", basicnode.NewInt(1700000000)}, {"cause", lk(3)}}
 		retypes := []datamodel.Node{basicnode.NewInt(5), basicnode.NewString("str"), basicnode.NewBytes([]byte{1, 2}), datamodel.Null,
 			basicnode.NewBool(true), mkList(), mkMap(), basicnode.NewFloat(1.5), lk(9), mkList(basicnode.NewInt(1)), mkMap(ent{"k", basicnode.NewInt(1)})}
+		// an integer beyond 2^53 under d levels of lists and maps
+		deep := func(d int, leaf datamodel.Node) datamodel.Node {
+			n := leaf
+			for k := 0; k < d; k++ {
+				if k%2 == 0 {
+					n = mkList(n)
+				} else {
+					n = mkMap(ent{"k", n})
+				}
+			}
+			return n
+		}
+		big53 := basicnode.NewInt(9007199254740992)
+		self := p.did.String()
 		special := map[string][]datamodel.Node{
 			"nbf":   {basicnode.NewInt(9007199254740991), basicnode.NewInt(9007199254740992), basicnode.NewInt(-9007199254740992), basicnode.NewInt(math.MinInt64), basicnode.NewUint(math.MaxUint64), basicnode.NewInt(0), basicnode.NewInt(-1)},
-			"exp":   {basicnode.NewInt(9007199254740991), basicnode.NewInt(9007199254740992), basicnode.NewInt(-9007199254740991), basicnode.NewUint(1 << 63), basicnode.NewInt(0)},
-			"iat":   {basicnode.NewInt(9007199254740992), basicnode.NewUint(math.MaxUint64), basicnode.NewInt(-9007199254740992)},
+			"exp":   {basicnode.NewInt(9007199254740991), basicnode.NewInt(9007199254740992), basicnode.NewInt(-9007199254740991), basicnode.NewUint(1 << 63), basicnode.NewInt(0), basicnode.NewInt(-62135596800), basicnode.NewInt(-1)},
+			"iat":   {basicnode.NewInt(9007199254740992), basicnode.NewUint(math.MaxUint64), basicnode.NewInt(-9007199254740992), basicnode.NewInt(0), basicnode.NewInt(-62135596800)},
 			"nonce": {basicnode.NewBytes(nil), basicnode.NewBytes(bytes.Repeat([]byte{1}, 11)), basicnode.NewBytes(bytes.Repeat([]byte{1}, 13)), basicnode.NewBytes(bytes.Repeat([]byte{1}, 1))},
 			"cmd": {basicnode.NewString("a"), basicnode.NewString("/A"), basicnode.NewString("/a/"), basicnode.NewString(""), basicnode.NewString("/"), basicnode.NewString("//"),
 				basicnode.NewString("/é"), basicnode.NewString("/É"), basicnode.NewString("/crud/Écrire"), basicnode.NewString("/Ω"), basicnode.NewString("/ǅ"), basicnode.NewString("/Ⅳ"), basicnode.NewString("/ほげ")},
-			"iss":   {basicnode.NewString("did:key:z"), basicnode.NewString("did:web:example.com"), basicnode.NewString(""), basicnode.NewString(aud)},
-			"aud":   {basicnode.NewString("did:key:zabc"), basicnode.NewString("")},
-			"sub":   {basicnode.NewString("not-a-did"), basicnode.NewString("")},
-			"pol":   {J(`[["==",".a",9007199254740992]]`), J(`[["bogus",".a",1]]`), J(`[["==","a",1]]`), J(`[["like",".a","x\\"]]`), J(`[]`), mkList(mkList(basicnode.NewString("=="), basicnode.NewString(".a"), basicnode.NewUint(math.MaxUint64)))},
-			"args":  {J(`{"a":9007199254740992}`), J(`{"a":[{"b":-9007199254740992}]}`), mkMap(ent{"u", basicnode.NewUint(math.MaxUint64)}), J(`{}`), J(`{"a":9007199254740991}`)},
+			"iss": {basicnode.NewString("did:key:z"), basicnode.NewString("did:web:example.com"), basicnode.NewString(""), basicnode.NewString(aud),
+				basicnode.NewString(self + "#" + self[8:]), basicnode.NewString(self + "#"), basicnode.NewString(" " + self), basicnode.NewString(self + "\n"), basicnode.NewString("DID:KEY:" + self[8:])},
+			"aud": {basicnode.NewString("did:key:zabc"), basicnode.NewString(""), basicnode.NewString(aud + "#" + aud[8:]), basicnode.NewString(self), basicnode.NewString(aud + "?x")},
+			"sub": {basicnode.NewString("not-a-did"), basicnode.NewString(""), basicnode.NewString(aud + "#" + aud[8:]), basicnode.NewString(self)},
+			"pol": {J(`[["==",".a",9007199254740992]]`), J(`[["bogus",".a",1]]`), J(`[["==","a",1]]`), J(`[["like",".a","x\\"]]`), J(`[]`), mkList(mkList(basicnode.NewString("=="), basicnode.NewString(".a"), deep(30, big53))), mkList(mkList(basicnode.NewString("=="), basicnode.NewString(".a"), deep(33, big53))), mkList(mkList(basicnode.NewString("=="), basicnode.NewString(".a"), deep(64, big53))), mkList(mkList(basicnode.NewString("=="), basicnode.NewString(".a"), basicnode.NewUint(math.MaxUint64)))},
+			"args": {J(`{"a":9007199254740992}`), J(`{"a":[{"b":-9007199254740992}]}`), mkMap(ent{"u", basicnode.NewUint(math.MaxUint64)}), J(`{}`), J(`{"a":9007199254740991}`),
+				mkMap(ent{"a", deep(31, big53)}), mkMap(ent{"a", deep(32, big53)}), mkMap(ent{"a", deep(33, big53)}), mkMap(ent{"a", deep(40, big53)}), mkMap(ent{"a", deep(64, big53)}),
+				mkMap(ent{"a", deep(64, basicnode.NewInt(9007199254740991))})},
 			"meta":  {J(`{"big":9007199254740993}`), J(`{}`)},
 			"prf":   {mkList(basicnode.NewString("x")), mkList(), mkList(lk(1), basicnode.NewInt(2))},
 			"cause": {basicnode.NewString("x")},
@@ -927,6 +972,49 @@ func genToken(c *Ctx) {
 					KV{"cmd", WStr(s.cmd)}, KV{"nonce", WInt(int64(s.nonce))}, KV{"t1", tw(s.t1)}, KV{"t2", tw(s.t2)}, KV{"polmax", WInt(s.polmax)})), obs)
 			}
 		}
+	}
+
+	// ---- 3b. one *args.Args / *meta values handed to two constructor calls, each followed by an argument of its own:
+	// every token holds what it was given, the caller's value is untouched, also when it is modified afterwards
+	for _, first := range []bool{true, false} {
+		iss, sub := e.keys[0].did, e.keys[1%len(e.keys)].did
+		common := args.New()
+		_ = common.Add("path", "/x")
+		_ = common.Add("limit", 10)
+		keysOf := func(it interface {
+			Iter() iter.Seq2[string, datamodel.Node]
+		}) W {
+			var ks []string
+			for k := range it.Iter() {
+				ks = append(ks, k)
+			}
+			return WStrs(ks)
+		}
+		obs := safe(func() W {
+			mk := func(k string) (*invocation.Token, error) {
+				if first {
+					return invocation.New(iss, sub, command.Command("/a"), nil, invocation.WithArguments(common), invocation.WithArgument(k, 1))
+				}
+				return invocation.New(iss, sub, command.Command("/a"), nil, invocation.WithArgument(k, 1), invocation.WithArguments(common))
+			}
+			ta, err := mk("ka")
+			if err != nil {
+				return errObs()
+			}
+			tb, err := mk("kb")
+			if err != nil {
+				return errObs()
+			}
+			_ = common.Add("later", true)
+			return WList(keysOf(ta.Arguments()), keysOf(tb.Arguments()), keysOf(common))
+		})
+		var want W
+		if first {
+			want = WList(WStrs([]string{"path", "limit", "ka"}), WStrs([]string{"path", "limit", "kb"}), WStrs([]string{"path", "limit", "later"}))
+		} else {
+			want = WList(WStrs([]string{"ka", "path", "limit"}), WStrs([]string{"kb", "path", "limit"}), WStrs([]string{"path", "limit", "later"}))
+		}
+		c.Emit("tok/args-shared", WList(WStr("seq"), WList(want)), obs)
 	}
 
 	// ---- 4. Go numbers offered as argument / metadata values
